@@ -457,6 +457,9 @@ def merge(m1, m2, **kargs):
                 v2 = v2.simplify(**kargs)
             else:
                 v2 = m2[mem(loc, v1.size)]
+                # what m1 finally holds there (a later overlapping
+                # store of m1 may have replaced some of these bytes):
+                v1 = m1[mem(loc, v1.size)]
         else:
             if loc._is_reg and (loc.etype & regtype.FLAGS):
                 v2 = top(loc.size)
@@ -481,6 +484,8 @@ def merge(m1, m2, **kargs):
                 v1 = v1.simplify(**kargs)
             else:
                 v1 = m1[mem(loc, v2.size)]
+                # what m2 finally holds there:
+                v2 = m2[mem(loc, v2.size)]
         else:
             if loc._is_reg and (loc.etype & regtype.FLAGS):
                 v1 = top(loc.size)
